@@ -54,6 +54,7 @@ func (bucket *Bucket) StartDCPFeed(
 
 	doneChan := args.DoneChan
 	doneChans := map[*Collection]chan struct{}{}
+	var startErr error
 	for _, collection := range requestedCollections {
 		// Not bothering to remove scopes from args for the single collection feeds
 		// here because it's ignored by Collection.StartDCPFeed
@@ -68,8 +69,14 @@ func (bucket *Bucket) StartDCPFeed(
 		argsCopy := args
 		argsCopy.DoneChan = doneChans[collection]
 
-		// Ignoring error is safe because Collection doesn't have error scenarios for StartDCPFeed
-		_ = collection.StartDCPFeed(ctx, argsCopy, collectionAwareCallback, dbStats)
+		// A collection's feed can fail to start (the bucket has been closed, its checkpoint cannot be read): no feed
+		// will ever close its done channel then, and the caller has to be told.
+		if err := collection.StartDCPFeed(ctx, argsCopy, collectionAwareCallback, dbStats); err != nil {
+			close(doneChans[collection])
+			if startErr == nil {
+				startErr = err
+			}
+		}
 	}
 
 	// coalesce doneChans
@@ -82,7 +89,7 @@ func (bucket *Bucket) StartDCPFeed(
 		}
 	}()
 
-	return nil
+	return startErr
 }
 
 //////// COLLECTION API:
